@@ -320,6 +320,20 @@ class TopLevelVisitor(ast.NodeVisitor):
                         return
             except Exception:  # nocover
                 pass
+            try:
+                # The same guard written the other way around:
+                # if '__main__' == __name__:
+                left = node.test.left
+                left_value = left.value if IS_PY_GE_312 else left.s
+                if all([
+                    isinstance(node.test.ops[0], ast.Eq),
+                    left_value == '__main__',
+                    node.test.comparators[0].id == '__name__',
+                ]):
+                    # Ignore main block
+                    return
+            except Exception:  # nocover
+                pass
         self.generic_visit(node)  # nocover
 
     # def visit_ExceptHandler(self, node):
